@@ -30,6 +30,7 @@ typedef struct ys_scanner ys_scanner;
 #define YS_SCAN_FILE 1
 #define YS_SCAN_FD 2
 #define YS_SCAN_BLOCKS 3
+#define YS_SCAN_PROC 4 /* yr_*_scan_proc(opts.pid); data/len unused */
 
 int ys_initialize(void);
 int ys_finalize(void);
@@ -94,6 +95,7 @@ typedef struct ys_scan_opts
                          has been truncated, so reading it raises SIGBUS inside the library; 0 = none */
   int park_us;        /* YS_SCAN_BLOCKS: fetch_data sleeps this long before returning */
   int resume_sleep_us; /* YS_SCAN_BLOCKS with a scanner: wait this long before resuming after NOT_READY */
+  int pid;            /* YS_SCAN_PROC */
   const char* scan_path; /* YS_SCAN_FILE: scan this existing path instead of `data` (e.g. a file that cannot be mapped) */
 } ys_scan_opts;
 
@@ -101,6 +103,9 @@ typedef struct ys_scan_opts
 int ys_scan(ys_rules* r, ys_scanner* s, const uint8_t* data, size_t len,
             const ys_scan_opts* o, char** trace);
 
+/* an idle child process (/bin/sleep) to scan through the process-memory entry points; -1 on failure */
+int ys_spawn_idle(void);
+void ys_kill_idle(int pid);
 ys_scanner* ys_scanner_new(ys_rules* r, int* err);
 void ys_scanner_free(ys_scanner* s);
 int ys_scanner_define(ys_scanner* s, int type, const char* id, int64_t i, double f, const char* s_);
